@@ -1,4 +1,4 @@
-import OjgVerif.Sen.Lemmas
+import OjgVerif.Sen.LemmasSafe
 import OjgVerif.Gen.SenFacts
 /-! # C06 (SEN clause) — no SEN input makes sen.Parse / ParseReader / Tokenize panic or hang
 (what is PROVED about the machine model; the crash search itself is the harness run)
@@ -18,10 +18,19 @@ that, and both are excluded by facts about the regenerated tables:
 exactly the ones the model has a branch for — the parser has all 43 codes, the tokenizer lacks
 `valPlus`, `openParen`, `closeParen` and the four C-comment codes (known findings of C03sen).
 
-NOT proved: that the model never answers `fault` outside the `+` branch (the stack-shape invariant of
-`add`/`closeArray`); the run-time faults the model does predict for `+` (`[1 + "x"]`, `+"x"`) are the
-known finding C06sen-plus-panic. That the Go code behaves like the model on malformed input is the
-correspondence run (every call under `recover` and a watchdog). -/
+`no_fault_without_plus` (sen.Parser profile): **every run-time fault of the machine is preceded by a `+`
+read in value position** — on an instance without a pending `+`, for every configuration, input and
+chunking, if a call ends in a fault (failed type assertion, index out of range, nil-map write, slice
+bounds) then the run went through the `valPlus` case before. Proof: the stack-shape invariant
+(`Sen.wf`: under every key lies a map; `starts` and the build stack agree; only finished values above an
+array placeholder and at depth 0) is kept by every case of the switch. `no_hang`: the no-progress
+outcome is unreachable. `never_faults_full_false`: without the exclusion the statement is false:
+`[1 + "x"]` faults (known finding C06sen-plus-panic; a proposed fix turns the faults into errors).
+
+That the Go code behaves like the model on malformed input is the correspondence run (every call under
+`recover` and a watchdog; the model's fault predictions are compared with the actual panics). The
+tokenizer profile is not covered by `no_fault_without_plus` (it has no build stack; its run-time faults,
+if any, would surface as error results through its `recover`, which the run checks for). -/
 namespace OjgVerif.C06sen
 open OjgVerif OjgVerif.Sen
 
@@ -99,5 +108,43 @@ theorem switch_cases :
 /-- the model names 43 codes, one per Go constant of `sen/maps.go`, pairwise distinct -/
 theorem codes_complete : modelParserCases.length = codeList.length ∧ codeList.Nodup :=
   ⟨by decide, codes_distinct⟩
+
+/-! ## no run-time fault without `+`, no hang -/
+
+/-- **C06 (SEN parser), partial form**: on an instance without a pending `+`, a call that ends in a
+run-time fault has read a `+` in value position before (mark `p`) — over every table set that passes
+`TablesOK`, every configuration, input and chunking -/
+theorem no_fault_without_plus {T : Tables} (hT : TablesOK T) (cfg : Cfg) (hc : cfg.tokenizer = false)
+    (prev : St) (hp : prev.plus = false) (chunks : List Bytes) (e : Err)
+    (h : call T cfg prev chunks = .error e) (w : String) (hw : e.kind = .fault w) : 'p' ∈ e.feat := by
+  rw [call_eq_ref hT] at h
+  exact call_safe_ref cfg hc prev hp chunks e h w hw
+
+/-- the same over the regenerated `sen/maps.go`, for a fresh parser -/
+theorem no_fault_without_plus_sen (cfg : Cfg) (hc : cfg.tokenizer = false) (chunks : List Bytes) (e : Err)
+    (h : run senTables cfg chunks = .error e) (w : String) (hw : e.kind = .fault w) : 'p' ∈ e.feat :=
+  no_fault_without_plus senTables_ok cfg hc {} rfl chunks e h w hw
+
+/-- the parser machine never reaches the no-progress state -/
+theorem no_hang {T : Tables} (hT : TablesOK T) (cfg : Cfg) (hc : cfg.tokenizer = false)
+    (prev : St) (chunks : List Bytes) (e : Err) (h : call T cfg prev chunks = .error e) : e.kind ≠ .hang := by
+  rw [call_eq_ref hT] at h
+  exact call_noHang_ref cfg hc prev chunks e h
+
+/-- the model never faults, on any input -/
+def never_faults_full : Prop :=
+  ∀ (cfg : Cfg) (chunks : List Bytes),
+    (match run refTables cfg chunks with | .error e => e.kind.isFault | .ok _ => false) = false
+
+/-- `[1 + "x"]`: the `+` branch of `addString` asserts that the previous value is a string -/
+theorem never_faults_full_false : ¬ never_faults_full := by
+  intro h
+  have := h {} [[91, 49, 32, 43, 32, 34, 120, 34, 93]]
+  revert this
+  decide +kernel
+
+/-- non-vacuity of `no_fault_without_plus`: the run on `[1 + "x"]` does end in a fault, and carries the mark -/
+example : (match run senTables {} [[91, 49, 32, 43, 32, 34, 120, 34, 93]] with
+    | .error e => e.kind.isFault && e.feat.contains 'p' | .ok _ => false) = true := by decide +kernel
 
 end OjgVerif.C06sen
